@@ -528,7 +528,7 @@ func checkProtoFlag(p *Prog, r *Report) {
 							neq := map[string]bool{}
 							for _, f := range s.Facts {
 								bo, isB := f.Cond.(*ssa.BinOp)
-								if !isB || bo.Op != token.NEQ || !f.Truth {
+								if !isB || (bo.Op != token.NEQ && bo.Op != token.EQL) || (bo.Op == token.NEQ) != f.Truth {
 									continue
 								}
 								if fieldVarOfLoad(s.Resolve(bo.X)) == fv {
